@@ -2,7 +2,7 @@
    Statements only; proofs in proofs/DASProofs.v.  Model: model/DAS.v (das / build_attributes of responses/das.py, DASParser of
    parsers/das.py at character level, add_attributes).  Numbers appear in the model as the tokens the DAS carries; the
    pair  "%.6g" % x  /  ast.literal_eval  is outside the model (compared by the harness to six significant digits). *)
-From PydapV Require Import Base Quote QuoteProofs DDS DDSProofs DAS DASProofs.
+From PydapV Require Import Base Quote QuoteProofs DDS DDSProofs DAS DASProofs DASPlaceProofs.
 Open Scope nat_scope.
 
 (* wf_entries: leaf attribute names are non-empty and in quoted form; type words and container names contain no white space and
@@ -26,6 +26,28 @@ Theorem C08_string_value : forall s, forallb str_char s = true -> strip_dq (dq :
 Proof. exact strip_dq_wrap. Qed.
 Print Assumptions C08_string_value.
 
+(* Placement.  wf_ds: dataset attribute names and variable names pairwise distinct, free of '.', different from the dataset's
+   name; per variable (wf_v) attribute names and member names pairwise distinct; members of a Base / Grid are leaves; no
+   NC_GLOBAL / DODS_EXTRA container among the dataset attributes.  expected lists, in walk order, every variable with its own
+   attributes in the order the DAS prints them (members of a Grid get none: the DAS does not serve them).
+   For EVERY such dataset (any depth and width): add_attributes applied to the DAS of the dataset gives every variable exactly
+   its own attributes and the dataset its own. *)
+Theorem C08_placement : forall dsname dsa kids,
+  wf_ds dsname dsa kids = true ->
+  add_attributes dsname kids (das_of dsa kids) = Some (sort_attrs dsa, flat_map (expected []) kids).
+Proof. exact add_attributes_das_of. Qed.
+Print Assumptions C08_placement.
+
+(* served, parsed and re-attached: the text round trip composed with the placement *)
+Theorem C08_served_parsed_attached : forall dsname dsa kids,
+  wf_ds dsname dsa kids = true -> wf_entries (das_of dsa kids) = true ->
+  (do a <- parse_das (print_das (das_of dsa kids)); add_attributes dsname kids a) =
+  Some (sort_attrs dsa, flat_map (expected []) kids).
+Proof.
+  intros dsname dsa kids H1 H2. rewrite (parse_print_das _ H2). cbn [obind]. apply add_attributes_das_of, H1.
+Qed.
+Print Assumptions C08_served_parsed_attached.
+
 Definition ex_das : list (chars * aval) :=
  [(s2l "NC_GLOBAL", ADict [(s2l "hist", ALeaf (s2l "String") [IStr (s2l "x y")]);
                            (s2l "k", ALeaf (s2l "Int32") [INum (s2l "1"); INum (s2l "2")])]);
@@ -35,12 +57,14 @@ Definition ex_das : list (chars * aval) :=
 Example C08_ex : wf_entries ex_das = true /\ parse_das (print_das ex_das) = Some ex_das.
 Proof. split; vm_compute; reflexivity. Qed.
 
-(* placement on a client dataset (executable model add_attributes, see DESIGN.md): a served DAS re-attaches every
-   attribute map to the variable it came from; NC_GLOBAL is flattened into the dataset's attributes *)
+(* NC_GLOBAL is flattened into the dataset's attributes (outside wf_ds; compared by the harness) *)
 Definition ex_vars : list vtree :=
   [VNode KBase (s2l "x") [(s2l "units", ALeaf (s2l "String") [IStr (s2l "m")]); (s2l "a", ALeaf (s2l "Int32") [INum (s2l "1")])] [];
    VNode KStruct (s2l "s") [(s2l "sa", ALeaf (s2l "Int32") [INum (s2l "2")])]
      [VNode KBase (s2l "y") [(s2l "ya", ALeaf (s2l "Int32") [INum (s2l "3")])] []]].
+Example C08_ex_wf : wf_ds (s2l "d") [(s2l "title", ALeaf (s2l "String") [IStr (s2l "t")])] ex_vars = true /\
+  wf_entries (das_of [(s2l "title", ALeaf (s2l "String") [IStr (s2l "t")])] ex_vars) = true.
+Proof. split; vm_compute; reflexivity. Qed.
 Example C08_ex_placement :
   add_attributes (s2l "d") ex_vars
     (das_of [(s2l "title", ALeaf (s2l "String") [IStr (s2l "t")]); (s2l "NC_GLOBAL", ADict [(s2l "h", ALeaf (s2l "Int32") [INum (s2l "9")])])] ex_vars) =
